@@ -630,7 +630,7 @@ def finish_plan(ctx, pid, tier, pool, design, jobs, meta, results, noopt_jobs, n
             n_rej += 1
             ctx.note_drift(f"Trace_EncWindow rejected a trace of {g['ids'][:3]}.. after event {g['reached']} of {g['total']}"
                            + (f" (invariant {g['violated']})" if g["violated"] and g["violated"] != "postcondition" else "")
-                           + f"; next event {g['next']}")
+                           + f"; next event {g['next']}" + (f"; {g['observed']}" if g.get("observed") else ""))
     # renormalisation events
     norm_lines = []
     for j, r in traced:
@@ -670,8 +670,9 @@ def finish_plan(ctx, pid, tier, pool, design, jobs, meta, results, noopt_jobs, n
             ext = shadow_tot.get("lz::extend_match get_unchecked", {})
             if not ext.get("touch_lo") or not ext.get("touch_hi"):
                 missing.append("extend_match never touched both buffer ends")
-        if missing and os.environ.get("C1_DEV_ONLY_CEX") != "1":
+        if missing and os.environ.get("C1_DEV_ONLY_CEX") != "1" and not ctx.violations:
             raise ToolError(f"vacuous {pid} run: never exercised: {missing}")
+        ctx.cov["not_exercised"] = missing
     ctx.cov["traces_validated_against_impl"] = n_ok
     ctx.cov["trace_groups_rejected"] = n_rej
     ctx.cov["renormalisations_validated"] = n_norm
@@ -819,7 +820,7 @@ def run_c13(ctx, tier, rnd, pool, design):
         ctx.note_tlc("trace EncWindow", g["r"])
         if not g["ok"]:
             ctx.note_drift(f"Trace_EncWindow rejected a trace of {g['ids'][:3]}.. after event {g['reached']} of {g['total']}"
-                           + (f" (invariant {g['violated']})" if g["violated"] and g["violated"] != "postcondition" else "") + f"; next event {g['next']}")
+                           + (f" (invariant {g['violated']})" if g["violated"] and g["violated"] != "postcondition" else "") + f"; next event {g['next']}" + (f"; {g['observed']}" if g.get("observed") else ""))
     log(f"[stage3] {n_ok} traces accepted, {n_rej} groups rejected in {time.time()-t0:.1f}s")
     if n_cmp < 50:
         raise ToolError("vacuous C13 run: fewer than 50 outputs compared")
